@@ -6,6 +6,7 @@
   Not modelled: the 15–60 s timer loop that decides *when* a pass runs (only its quiescence test).
 -/
 import Emu.Proofs.Gc
+import Emu.Proofs.GcInterleave
 import Emu.Bt.Server
 
 namespace Emu.Props.C16
@@ -87,5 +88,43 @@ theorem pass_only_when_quiescent (lw lr realNow : Int) (h : shouldGC lw lr realN
 /-- Non-vacuity: union(max-versions 2, max-age 1 s) at now = 3.5 s over cells at 3 s, 2.4 s, 1 s. -/
 example : applyGC 3500000 (.union [.maxVersions 2, .maxAge 1 0])
     [⟨3000000, [1], []⟩, ⟨2400000, [2], []⟩, ⟨1000000, [3], []⟩] = [⟨3000000, [1], []⟩] := by decide
+
+open Emu.Proofs.GcInterleave in
+/-- **Writes acknowledged while a pass is running are never lost or reverted.**  Let one client
+    write in at every point where the pass gives up the table lock (any writes, any table, any
+    rules).  `lastWritten k` is the row of key `k` exactly as the last acknowledged write touching it
+    left it (the row as stored when the pass began, if no write touched it).  After the pass every
+    stored row is that row collected zero or more times: the pass only ever applies the GC rules to
+    what is stored at that moment, it never writes an older version back and never deletes a row
+    that a write has refilled. -/
+theorem pass_never_reverts_a_write (now : Int) (t : Table) (writes : List (Bytes × List Mutation)) (k : Bytes) :
+    ∃ n, (gcInterleaved now t writes).1.rows.get k =
+      iter (collectO now t.schema) n (if t.schema.all (·.2.isNone) then t.rows.get k else lastWritten now t writes k) := by
+  unfold gcInterleaved
+  split
+  · exact ⟨0, rfl⟩
+  · simp only
+    have h0 : Rel now t.schema ({ rows := t.rows, writes := writes } : GcwState).rows (fun k => t.rows.get k) :=
+      fun k => ⟨0, rfl⟩
+    have h1 := foldl_gcVisitG_rel now t.schema (t.rows.map (·.key)) ({ rows := t.rows, writes := writes }, fun k => t.rows.get k) h0
+    rw [foldl_gcVisitG_fst] at h1
+    exact foldl_gcFinish_rel now t.schema _ _ _ h1 k
+
+open Emu.Proofs.GcInterleave in
+/-- what `lastWritten` records at a lock reversal: an acknowledged write replaces the record of its
+    own key by the row it produced, and of no other key; a refused write records nothing -/
+theorem record_follows_acknowledged_writes (now : Int) (s : Schema) (st1 : GcwState) (last : Bytes → Option Row)
+    (wk : Bytes) (ms : List Mutation) (ws : List (Bytes × List Mutation))
+    (hrev : (st1.visited + 1) % Generated.gcLockReversalPeriod = 0) (hw : st1.writes = (wk, ms) :: ws) :
+    (∀ rows', mutateRow s now st1.rows wk ms = some rows' →
+        ghostStep now s st1 last wk = rows'.get wk ∧ ∀ k, k ≠ wk → ghostStep now s st1 last k = last k) ∧
+    (mutateRow s now st1.rows wk ms = none → ghostStep now s st1 last = last) := by
+  unfold ghostStep
+  simp only [hrev, if_true, hw]
+  constructor
+  · intro rows' h
+    simp only [h]
+    exact ⟨by simp, fun k hk => by simp [hk]⟩
+  · intro h; simp only [h]
 
 end Emu.Props.C16
